@@ -12,7 +12,7 @@ import time
 VERIF = os.path.dirname(os.path.dirname(os.path.abspath(__file__)))
 REPO = os.environ.get('VERIF_REPO', '/repo')
 SCRATCH_ROOT = os.environ.get('VERIF_SCRATCH', '/var/tmp')
-EVIDENCE_DIR = os.path.join(VERIF, 'evidence')
+EVIDENCE_DIR = os.environ.get('VERIF_EVIDENCE_DIR') or os.path.join(VERIF, 'evidence')
 REPLAY_DIR = os.path.join(EVIDENCE_DIR, 'replay')
 KNOWN_FINDINGS = os.path.join(VERIF, 'known-findings.txt')
 
